@@ -213,6 +213,58 @@ def generate(repo):
     A('\n/-- module constants `H`, `C`, `K` of lentil/radiometry.py as exact rationals of their decimal literals -/')
     for k in ('H', 'C', 'K'):
         A(f'def const{k} {{K : Type}} [NatCast K] [Div K] : K := {lean_q(consts[k])}')
+    # ---- Spectrum.to: what each kind of argument does to one (wavelength, value) sample
+    to_fn = to[0]
+    loops = [st for st in to_fn.body if isinstance(st, ast.For)]
+    if len(loops) != 1 or ast.unparse(loops[0].target) != 'unit' or ast.unparse(loops[0].iter) != 'args': raise Refuse('Spectrum.to: `for unit in args` not found')
+    top = [st for st in loops[0].body if isinstance(st, ast.If)]
+    if len(top) != 1: raise Refuse('Spectrum.to: dispatch')
+    wbr, rest = top[0], top[0].orelse
+    if len(rest) != 1 or not isinstance(rest[0], ast.If): raise Refuse('Spectrum.to: flux branch')
+    fbr = rest[0]
+    if not (len(fbr.orelse) == 1 and isinstance(fbr.orelse[0], ast.Raise) and 'ValueError' in ast.unparse(fbr.orelse[0])): raise Refuse('Spectrum.to: unknown-unit arm')
+    def sexpr(e, env):
+        key = ast.unparse(e)
+        if key in env: return env[key]
+        if isinstance(e, ast.BinOp):
+            op = {ast.Mult: '*', ast.Div: '/', ast.Add: '+', ast.Sub: '-'}.get(type(e.op))
+            if op is None: raise Refuse(f'Spectrum.to: operator {type(e.op).__name__}')
+            return f'({sexpr(e.left, env)} {op} {sexpr(e.right, env)})'
+        raise Refuse(f'Spectrum.to: expression {key[:60]}')
+    def assigns(stmts):
+        out = {}
+        for st in stmts:
+            if isinstance(st, ast.Assign) and len(st.targets) == 1: out.setdefault(ast.unparse(st.targets[0]), st.value)
+            elif isinstance(st, ast.Expr) and isinstance(st.value, ast.Constant): pass
+            else: raise Refuse(f'Spectrum.to: statement {ast.unparse(st)[:60]}')
+        return out
+    inner = [st for st in wbr.body if isinstance(st, ast.If)]
+    if len(inner) != 1 or ast.unparse(inner[0].test) != "self.valueunit in ['photlam', 'flam', 'wlam']": raise Refuse('Spectrum.to: density test')
+    dens = assigns(inner[0].body)
+    if len(inner[0].orelse) != 1 or not isinstance(inner[0].orelse[0], ast.If) or ast.unparse(inner[0].orelse[0].test) != 'self.valueunit is None': raise Refuse('Spectrum.to: unitless test')
+    unitless = assigns(inner[0].orelse[0].body)
+    if set(dens) != {'self.wave', 'self.value'} or set(unitless) != {'self.wave'}: raise Refuse(f'Spectrum.to: assignments {sorted(dens)} / {sorted(unitless)}')
+    envw = {'self.wave': 'w', 'self.value': 'v', 'self._waveunit.to(unit)': 'k'}
+    A('\n/-- `Spectrum.to(<wave unit>)`, per sample, k = `self._waveunit.to(unit)`: density spectrum -/')
+    def stepdef(name, body):
+        used = [x for x in ('w', 'v', 'k') if re.search(r'(?<![A-Za-z_])' + x + r'(?![A-Za-z_0-9])', body)]
+        return f"def {name} ({' '.join(used)} : Rat) : Rat := {body}"
+    A(stepdef('toStepWaveDensity', sexpr(dens['self.wave'], envw)))
+    A(stepdef('toStepValueDensity', sexpr(dens['self.value'], envw)))
+    A('/-- … unitless spectrum (no assignment to `self.value` in that arm) -/')
+    A(stepdef('toStepWaveUnitless', sexpr(unitless['self.wave'], envw)))
+    A('def toStepValueUnitless (v : Rat) : Rat := v')
+    if not (isinstance(fbr.body[0], ast.If) and ast.unparse(fbr.body[0].test) == 'self.valueunit is None' and isinstance(fbr.body[0].body[0], ast.Raise) and 'TypeError' in ast.unparse(fbr.body[0].body[0])):
+        raise Refuse('Spectrum.to: TypeError arm for a unitless spectrum')
+    fl = assigns(fbr.body[0].orelse)
+    if list(fl) != ['wave', 'value', 'self.value', 'self.valueunit']: raise Refuse(f'Spectrum.to: flux arm {list(fl)}')
+    envf = {'self.wave': 'w', 'self.value': 'v', "self._waveunit.to('meter')": 'km'}
+    wv, vv = sexpr(fl['wave'], envf), sexpr(fl['value'], envf)
+    res = fl['self.value']
+    if not (isinstance(res, ast.BinOp) and isinstance(res.op, ast.Div) and ast.unparse(res.left) == 'self._valueunit.to(value, unit, wave)' and ast.unparse(res.right) == 'Meter().to(self.waveunit)'):
+        raise Refuse('Spectrum.to: flux conversion expression')
+    A('\n/-- `Spectrum.to(<flux unit>)`, per sample: km = `self._waveunit.to(\'meter\')`, back = `Meter().to(self.waveunit)` -/')
+    A(f'def toStepFlux (f g : FUnit) (w v km back H C : Rat) : Rat :=\n  let wave := {wv}\n  let value := {vv}\n  (fluxTo f g value wave H C) / back')
     tr = _FnTr(src, cls_of, wunits, funits, aliases)
     A('\n/-- translated from `planck_radiance` (its own source lines; `np.exp` -> `expf`, `np.pi` -> `pi`, unit calls -> the tables above) -/')
     A(tr.fn(funcs['planck_radiance'], 'planckRadiance'))
